@@ -3,11 +3,20 @@
 package c16
 
 import (
+	"bytes"
 	"context"
+	"errors"
 	"fmt"
+	"github.com/form3tech-oss/f1/v2/internal/envsettings"
+	io_prometheus_client "github.com/prometheus/client_model/go"
+	"github.com/prometheus/common/expfmt"
+	"io"
+	"net/http"
+	"net/http/httptest"
 	"sort"
 	"strconv"
 	"sync"
+	"sync/atomic"
 	"testing"
 	"time"
 
@@ -328,5 +337,114 @@ func TestC16Concurrent(t *testing.T) {
 		wg.Wait()
 		o.Count("workers", kit.I(nw))
 		o.Case("gather_obs", []string{encLabels(r, labels), "T", encRuns([]runPlan{rp})}, "ok "+gatherObs(m), "concurrent", "nt")
+	}
+}
+
+// ---------------------------------------------------------------- exported = what the push gateway holds
+
+// gateway is a push gateway as f1 sees one: every push replaces the group, so it holds the
+// content of the push that arrived last; it can take its time to answer.
+type gateway struct {
+	mu       sync.Mutex
+	families map[string]*io_prometheus_client.MetricFamily
+	lastSeq  uint64
+	arrivals atomic.Uint64
+	delay    time.Duration
+}
+
+func (g *gateway) ServeHTTP(w http.ResponseWriter, req *http.Request) {
+	seq := g.arrivals.Add(1)
+	body, err := io.ReadAll(req.Body)
+	_ = req.Body.Close()
+	if err != nil {
+		w.WriteHeader(http.StatusInternalServerError)
+		return
+	}
+	fams := map[string]*io_prometheus_client.MetricFamily{}
+	dec := expfmt.NewDecoder(bytes.NewReader(body), expfmt.ResponseFormat(req.Header))
+	for {
+		f := &io_prometheus_client.MetricFamily{}
+		if err := dec.Decode(f); err != nil {
+			if errors.Is(err, io.EOF) {
+				break
+			}
+			w.WriteHeader(http.StatusBadRequest)
+			return
+		}
+		fams[f.GetName()] = f
+	}
+	g.mu.Lock()
+	if seq > g.lastSeq {
+		g.lastSeq, g.families = seq, fams
+	}
+	g.mu.Unlock()
+	time.Sleep(g.delay)
+	w.WriteHeader(http.StatusAccepted)
+}
+
+func (g *gateway) iterationCounts() map[string]uint64 {
+	g.mu.Lock()
+	defer g.mu.Unlock()
+	counts := map[string]uint64{}
+	if f := g.families["form3_loadtest_iteration"]; f != nil {
+		for _, mt := range f.GetMetric() {
+			lab := map[string]string{}
+			for _, l := range mt.GetLabel() {
+				lab[l.GetName()] = l.GetValue()
+			}
+			if lab["stage"] == "iteration" {
+				counts[lab["result"]] += mt.GetSummary().GetSampleCount()
+			}
+		}
+	}
+	return counts
+}
+
+// Runs against a push gateway: once the run is over the gateway holds, per result label, exactly
+// as many iteration samples as the final result reports - also when the gateway answers slowly and
+// the run ends while a periodic push (every 5 s) is still unanswered.
+func TestC16Push(t *testing.T) {
+	o := kit.Get()
+	defer o.Close()
+	r := kit.NewRand(kit.Seed() + 163)
+	type plan struct {
+		dur, delay time.Duration
+	}
+	plans := []plan{{time.Duration(r.Range(150, 400)) * time.Millisecond, 0}, {time.Duration(r.Range(150, 400)) * time.Millisecond, 30 * time.Millisecond},
+		{time.Duration(5200+r.Range(0, 300)) * time.Millisecond, time.Second}}
+	for k := 0; k < kit.N(0, 4); k++ {
+		plans = append(plans, plan{time.Duration(5100+r.Range(0, 800)) * time.Millisecond, time.Duration(r.Range(300, 1500)) * time.Millisecond})
+	}
+	for _, p := range plans {
+		gw := &gateway{delay: p.delay}
+		srv := httptest.NewServer(gw)
+		settings := envsettings.Settings{}
+		settings.Prometheus.PushGateway = srv.URL
+		var n atomic.Int64
+		cfg := runkit.Config{Mode: "constant", Flags: map[string]string{"rate": "2/100ms", "distribution": "none"}, Ctx: context.Background(), Settings: settings,
+			Opts: options.RunOptions{MaxDuration: p.dur, Concurrency: 10, MaxFailuresRate: 100, IgnoreDropped: true}, Wait: 5 * time.Second,
+			Scenario: func(*f1testing.T) f1testing.RunFn {
+				return func(t *f1testing.T) {
+					if n.Add(1)%3 == 0 {
+						t.Fail()
+					}
+				}
+			}}
+		out, hung, _ := runkit.DoTimeout(cfg, 60*time.Second)
+		srv.Close()
+		if hung || out.Err != nil || out.Result == nil {
+			o.Fail("c16-run", "run against a push gateway did not complete")
+			continue
+		}
+		sn := out.Result.Snapshot()
+		got := gw.iterationCounts()
+		if got["success"] != sn.SuccessfulIterationDurations.Count || got["fail"] != sn.FailedIterationDurations.Count || got["dropped"] != sn.DroppedIterationCount {
+			o.Fail("gateway-differs-from-result", fmt.Sprintf("run of %s against a push gateway answering after %s (%d pushes arrived): the final result reports %d successful / %d failed / %d dropped, the gateway holds %d success / %d fail / %d dropped iteration samples",
+				p.dur, p.delay, gw.arrivals.Load(), sn.SuccessfulIterationDurations.Count, sn.FailedIterationDurations.Count, sn.DroppedIterationCount, got["success"], got["fail"], got["dropped"]))
+		}
+		o.Count("gateway", map[bool]string{true: "slow, run ends during a periodic push", false: "prompt"}[p.delay >= 300*time.Millisecond])
+		o.Case("c01_ok", []string{kit.I(sn.SuccessfulIterationDurations.Count), kit.I(sn.FailedIterationDurations.Count), kit.I(sn.DroppedIterationCount),
+			kit.I(sn.SuccessfulIterationDurations.Count), kit.I(sn.FailedIterationDurations.Count), kit.I(sn.DroppedIterationCount),
+			"T", kit.I(got["success"]), kit.I(got["fail"]), kit.I(got["dropped"])}, "T", "push", "nt")
 	}
 }
